@@ -106,7 +106,8 @@ class Case:
     def cfg_line(self):
         c = self.cfg
         return "cfg " + " ".join("%s=%d" % (k, c[k]) for k in ("w", "h", "bpp", "pw", "ft", "xvp", "utf8", "wait", "view",
-                                                               "dsz", "fixscale", "fixpeek", "fixfur")) + self.extra_cfg
+                                                               "dsz", "fixscale", "fixpeek", "fixfur")) + \
+            (" ext=%d" % c["ext"] if c.get("ext") else "") + self.extra_cfg
 
     def data(self, b):
         if b:
@@ -128,7 +129,11 @@ def rand_cfg(rng, variant, modelled=True):
     return dict(w=w, h=h, bpp=rng.choice([32, 32, 32, 8]) if modelled else 16, pw=int(rng.random() < 0.25),
                 ft=int(rng.random() < 0.2), xvp=int(rng.random() < 0.5), utf8=int(rng.random() < 0.6),
                 wait=rng.choice([0, 0, 3000, 7000, 12000]), view=int(rng.random() < 0.15),
-                dsz=int(rng.random() < 0.5), fixscale=variant["fixscale"], fixpeek=variant["fixpeek"], fixfur=variant["fixfur"])
+                dsz=int(rng.random() < 0.5), fixscale=variant["fixscale"], fixpeek=variant["fixpeek"], fixfur=variant["fixfur"],
+                # configuration axis: TightVNC file-transfer extension registered (1), registered but file transfer
+                # disabled (2).  Such sessions are run under the sanitizers and the oracle only (the extension's
+                # security type and messages are not in the mirror model).
+                ext=rng.choice([1, 1, 2]) if rng.random() < 0.15 else 0)
 
 
 def handshake_msgs(rng, cfg, minor=None):
@@ -136,6 +141,14 @@ def handshake_msgs(rng, cfg, minor=None):
     if minor is None:
         minor = rng.choice([8, 8, 8, 7, 3, 889])
     out = [m_version(3, minor)]
+    if cfg.get("ext") and minor in (7, 8) and rng.random() < 0.6:
+        # security type 16 (Tight): tunnel caps (none) / auth caps; with a password the client names VNC auth
+        out.append(bytes([16]))
+        if cfg["pw"]:
+            out.append(be32(2))
+            out.append(("auth", True))
+        out.append(bytes([rng.choice([0, 1])]))
+        return out
     if cfg["pw"]:
         if minor >= 7:
             out.append(bytes([2]))
@@ -297,7 +310,7 @@ def gen_normal_msg(rng, case, st):
         return gen_ft(rng, case)
     if k == "fixcmap":
         return m_fixcmap()
-    return bytes([rng.choice([12, 13, 14, 16, 100, 200, 249, 252, 253, 254, 255])]) + bytes(rng.randrange(256) for _ in range(rng.randint(0, 12)))
+    return bytes([rng.choice([12, 13, 14, 16, 100, 200, 249, 252, 253, 254, 255, 129, 130, 131, 132, 133, 134, 135, 136, 137])]) + bytes(rng.randrange(256) for _ in range(rng.randint(0, 12)))
 
 
 def gen_ft(rng, case):
@@ -519,7 +532,11 @@ def case_stall(rng, k, variant):
     cfg["ft"] = 0
     c = Case(k, "stall", cfg)
     st = {}
+    if rng.random() < 0.35:
+        cfg["pw"] = c.cfg["pw"] = 1    # a failed authentication writes twice (result word, reason string)
     items = handshake_msgs(rng, cfg)
+    if cfg["pw"] and rng.random() < 0.6:
+        items = [("auth", False) if isinstance(it, tuple) else it for it in items]
     at = rng.randint(0, len(items))
     emit_stream(rng, c, items[:at], "permsg")
     c.op("ev A stall")
@@ -751,12 +768,14 @@ def case_tightft(rng, k, variant):
     components, truncated and oversized fields.  Owned by C19 as far as the filesystem semantics go; here the
     sanitizers, the watchdog and the witness look at it (no model comparison)."""
     cfg = rand_cfg(rng, variant)
-    cfg.update(pw=0, ft=0, view=0, bpp=32)
+    cfg.update(pw=int(rng.random() < 0.2), ft=0, view=int(rng.random() < 0.3), bpp=32,
+               ext=2 if rng.random() < 0.25 else 1)
     c = Case(k, "tightft", cfg)
-    c.extra_cfg = " ext=1"
     L = SANDBOX_LEN
     pm = 4096
     items = [m_version(3, rng.choice([8, 8, 7])), bytes([16])]
+    if cfg["pw"]:
+        items += [be32(2), ("auth", rng.random() < 0.9)]
     if rng.random() < 0.9:
         items.append(bytes([1]))                                  # ClientInit
     def name_of(n):
@@ -1009,7 +1028,9 @@ def build(ctx):
 
 
 def sandbox(ctx):
+    import shutil
     sb = os.path.join(ctx.scratch, "sb")
+    shutil.rmtree(sb, ignore_errors=True)      # file-transfer cases of an earlier pass may have rearranged it
     os.makedirs(sb, exist_ok=True)
     for name, data in (("f1.txt", b"hello file transfer\n" * 50), ("f2.bin", bytes(range(256)) * 40)):
         with open(os.path.join(sb, name), "wb") as f:
@@ -1017,6 +1038,9 @@ def sandbox(ctx):
     os.makedirs(os.path.join(sb, "dir1"), exist_ok=True)
     with open(os.path.join(sb, "dir1", "f3"), "wb") as f:
         f.write(b"x" * 10)
+    for d, _, fs in os.walk(sb):                   # fixed time stamps: directory listings are sent to the peer
+        for n in fs + ["."]:
+            os.utime(os.path.join(d, n), (1600000000, 1600000000))
     return sb
 
 
@@ -1029,6 +1053,43 @@ def run_pair(ctx, cases, cexe, mexe, model=True):
     else:
         rc2, mout, merr = 0, "", ""
     return (rc1, cout, cerr), (rc2, mout, merr)
+
+
+def uninit_probe(ctx, cases, cexe):
+    """the bytes the server sends must not depend on uninitialised memory: run the same cases in two
+    processes that differ only in the garbage on the stack (VDRV_FILL), in fresh heap blocks (ASan
+    malloc_fill_byte) and in the address-space layout, and compare everything the fuzzed peer received.
+    Cases with a password are left out (the challenge is random by design).  -> list of (idx, what, feat)"""
+    sel = [i for i, c in enumerate(cases) if cfg_of(c).get("pw", 0) == 0 and
+           (len(cases) == 1 or c[0].split()[2].split(":")[0] in ("tightft", "corpus", "handshake", "extclip") or i % 6 == 0)]
+    if not sel:
+        return [], 0
+    script = "\n".join("\n".join(cases[i]) for i in sel) + "\n"
+    outs = []
+    for fill in (170, 85):
+        sb = sandbox(ctx)
+        env = {"VDRV_SANDBOX": sb, "HOME": sb, "VDRV_FILL": str(fill), "VDRV_DUMP": "1",
+               "ASAN_OPTIONS": "detect_leaks=0:abort_on_error=0:allocator_may_return_null=1:malloc_fill_byte=%d:"
+                               "max_malloc_fill_size=4194304" % fill}
+        rc, co, ce = vlib.run_driver(cexe, script, timeout=3000, env=env)
+        outs.append(vlib.split_cases(co))
+    res = []
+    for n, i in enumerate(sel):
+        a = [l for l in (outs[0][n][1] if n < len(outs[0]) else []) if l.startswith("~out ")]
+        b = [l for l in (outs[1][n][1] if n < len(outs[1]) else []) if l.startswith("~out ")]
+        if a != b and a and b and len(a) == len(b):
+            for la, lb in zip(a, b):
+                if la != lb:
+                    ha, hb = la.split(" ")[3] if len(la.split(" ")) > 3 else "", lb.split(" ")[3] if len(lb.split(" ")) > 3 else ""
+                    off = next((k // 2 for k in range(0, min(len(ha), len(hb)), 2) if ha[k:k + 2] != hb[k:k + 2]), min(len(ha), len(hb)) // 2)
+                    ext = cfg_of(cases[i]).get("ext", 0)
+                    res.append((i, "the server sent bytes that depend on uninitialised memory or addresses: output of connection %s differs "
+                                   "between two runs of the same script from offset %d (%s... vs %s...)" %
+                                   (la.split(" ")[1], off, ha[2 * off:2 * off + 32], hb[2 * off:2 * off + 32]),
+                                {"kind": "uninit-output", "ext": ext, "view": cfg_of(cases[i]).get("view", 0),
+                                 "tight_sectype": any(l.startswith("pe t=16 ") for l in outs[0][n][1])}))
+                    break
+    return res, len(sel)
 
 
 def strip_impl(line):
@@ -1097,7 +1158,8 @@ def oracle_case(case, impl_lines):
             if w > total and mw <= single:
                 fails.append(("one rfbProcessEvents call blocked for %d ms of peer-controlled waiting (client-wait time %d ms, "
                               "%d waits): %s" % (w, tmo, nw, l.strip()),
-                              {"kind": "wait-total", "waits_each_within_timeout": True}))
+                              {"kind": "wait-total", "waits_each_within_timeout": True,
+                               "stalled": any(x.startswith("ev A stall") for x in case)}))
         for m in re.finditer(r"fur:A:\d+:(\d+):(\d+):(\d+):(\d+)", l):
             x, y, w, h = (int(m.group(i)) for i in (1, 2, 3, 4))
             if x + w > cfg.get("w", 0) or y + h > cfg.get("h", 0):
@@ -1182,10 +1244,13 @@ def check(ctx):
         fails = oracle_case(c, il)
         for f in fails:
             oracle_fail.append((idx, f))
-        if kind not in ("nomodel16", "websocket", "tightft"):
+        if kind not in ("nomodel16", "websocket", "tightft") and " ext=" not in c[1]:
             d = compare(c, il, ml)
             if d is not None:
                 mismatches.append((idx, d))
+    probe, nprobe = uninit_probe(ctx, cases, cexe) if cases else ([], 0)
+    for (i, what, feat) in probe:
+        oracle_fail.append((i, (what, feat)))
     if rc1 != 0 and not oracle_fail:
         oracle_fail.append((0, ("implementation driver exited with %d: %s" % (rc1, cerr[-400:]), {"kind": "driver"})))
     if rc2 != 0:
@@ -1199,7 +1264,8 @@ def check(ctx):
              "tuples of processed messages",
         samples=[cases[i][:14] for i in (0, len(cases) // 2, len(cases) - 1)],
         input_distribution=hist, cases=len(cases), correspondence_mismatches=len(mismatches),
-        oracle_failures_incl_known=len(oracle_fail), source_variant=variant, exhaustive=False)
+        oracle_failures_incl_known=len(oracle_fail), source_variant=variant, exhaustive=False,
+        uninitialised_output_probe_cases=nprobe)
     ctx.assumptions += [
         "memory safety of the C text itself is sampled (ASan/UBSan on the generated inputs), not proved",
         "floating-point scaling (rfbScaledCorrection, ScaleX/Y), zlib inflate and the password check are parameters of the model "
@@ -1222,7 +1288,8 @@ def check(ctx):
     reported = 0
     for idx, (what, feat) in oracle_fail:
         key = (feat.get("kind"), feat.get("san"), feat.get("where"), feat.get("why"), feat.get("scale_zero_width"),
-               feat.get("fur_zero_width"), feat.get("file"), feat.get("what"), feat.get("transport"))
+               feat.get("fur_zero_width"), feat.get("file"), feat.get("what"), feat.get("transport"), feat.get("stalled"),
+               feat.get("ext"), feat.get("view"))
         if key in seen:
             continue
         seen.add(key)
@@ -1232,6 +1299,10 @@ def check(ctx):
         if reported >= 5:
             continue
         reported += 1
+        if feat.get("kind") == "uninit-output":
+            ctx.violation(what, feat, "script:\n" + "\n".join(cases[idx]) + "\n\n(two-run comparison: VDRV_FILL=170 / 85, "
+                          "ASan malloc_fill_byte likewise, VDRV_DUMP=1; compare the '~out' lines)")
+            continue
         def pred(lines, feat=feat):
             il, _, _, _, _ = run_one(lines, model=False)
             return any(f[1].get("kind") == feat.get("kind") and f[1].get("san") == feat.get("san") and
@@ -1277,10 +1348,11 @@ def replay(ctx, path):
     print("implementation:\n" + co + ce[-2000:] + "\nmodel:\n" + mo)
     ctx.coverage.update(evaluations=len(il), distinct_nontrivial=0, rule="replay", samples=[lines[:20]])
     fails = oracle_case(lines, il)
+    fails += [(w, f) for (_, w, f) in uninit_probe(ctx, [lines], cexe)[0]] if cfg_of(lines).get("pw", 0) == 0 else []
     for what, feat in fails:
         ctx.violation(what, feat, "script:\n" + "\n".join(lines) + "\n\nimplementation output:\n" + co + ce[-3000:])
     if not fails:
         d = compare(lines, il, ml)
-        if d is not None and "nomodel16" not in lines[0]:
+        if d is not None and "nomodel16" not in lines[0] and not any(l.startswith("cfg ") and " ext=" in l for l in lines):
             ctx.violation("correspondence differs on the replayed script: implementation '%s' vs model '%s'" % (d[1], d[2]),
                           {"kind": "correspondence"}, "script:\n" + "\n".join(lines) + "\n\n" + co + "\n" + mo, no_input=True)
